@@ -2,6 +2,7 @@
 import JumanjiModel.Bridge.Json
 import JumanjiModel.Env.Sokoban.Model
 import JumanjiModel.Env.Sokoban.Bounds
+import JumanjiModel.Env.Sokoban.Generator
 import JumanjiModel.Prim.Float
 open Lean Jb
 
@@ -67,14 +68,22 @@ def opJudge : Op := fun j => do
            (ts.stepType != .last || doneSpec cfg s'))
   pure (jObj [("illegal_ok", ill), ("conserved", jBool (conserved cfg.n s s'))])
 
-/-- certificates of a generated level (C10) -/
+/-- certificates of a generated level (C10): `level_cert` = the decidable certificate `LevelCert` of which
+    `sokoban_cert_consistent` etc. are proved; `matches_generator` (only when `cfg.gen` names a transliterated
+    generator, "toy" / "simple"): the reset state is one of the levels the Lean transliteration of that generator
+    produces (grids, agent location and step count), which ties `toyGenerate` / `simpleGenerate` to the code -/
 def opInstance : Op := fun j => do
   let (cfg, _) ← getCfg j
   let s ← getState cfg (← field j "state")
-  pure (jObj [("consistent", jBool (decide (Consistent cfg.n s))),
+  let gen ← fOpt (← field j "cfg") "gen" getStr
+  let m : List (String × Json) := match gen.bind (fun g => matchesGenerator g s) with
+    | some b => [("matches_generator", jBool b)]
+    | none => []
+  pure (jObj ([("consistent", jBool (decide (Consistent cfg.n s))),
               ("four_targets", jBool (countCells cfg.n s.fgrid TARGET == nBoxes)),
               ("not_solved", jBool (boxesOnTarget cfg.n s != nBoxes)),
-              ("step_zero", jBool (s.stepCount == 0))])
+              ("step_zero", jBool (s.stepCount == 0)),
+              ("level_cert", jBool (decide (LevelCert cfg.n s)))] ++ m))
 
 /-- {cfg} → {leaf path: {"lo": rat|null, "hi": rat|null}}: the proved value bounds `obsBounds cfg` (C01) -/
 def opBounds : Op := fun j => do
